@@ -126,7 +126,7 @@ impl Prop for C16 {
         vec!["the recording shim iterates all parameters of every execution, as every caller in the repository does (the library parses the type block lazily inside the iterator)".into()]
     }
     fn cases(&self, tier: Tier) -> u64 {
-        tier.pick(25_000, 500_000)
+        tier.pick(300000, 3000000)
     }
     fn fuzz_plan(&self, tier: Tier) -> Vec<(&'static str, u64)> {
         if tier == Tier::Thorough {
